@@ -28,7 +28,7 @@ RULE = ('cases = typed tables (strings incl. unicode/newlines, integers, floats,
 ASSUMPTIONS = [
     'object keys do not look like the encoder\'s own type{...} tags; no NaN/Infinity floats; times are naive',
 ]
-BUDGET = {'quick': dict(examples=480, shards=8, seconds=75),
+BUDGET = {'quick': dict(examples=960, shards=16, seconds=75),
           'thorough': dict(examples=40000, shards=16, seconds=1200)}
 
 TYPES = ['string', 'integer', 'number', 'boolean', 'date', 'time', 'datetime', 'duration', 'array', 'object', 'any']
